@@ -173,7 +173,9 @@ def genotype(
 
     if kind in ["vcf", "pscan"]:
         log.warn("WARNING: Using VCF file. Copy-number calling is not available.")
-        profile = Profile("user_provided", cn_solution=["1", "1"], **params)
+        # two default copies (one for an X/Y-linked gene of a male) unless the user supplies a structure
+        gene.do_copy_number = False
+        profile = Profile("user_provided", cn_solution=cn_solution, **params)
         sample = sam.Sample(gene, profile, sam_path, debug=debug)
     else:
         if cn_solution:
